@@ -133,7 +133,9 @@ class Spec(object):
 
     # -- alphabet -----------------------------------------------------------------
     def sizes(self, top):
-        return sorted(set(s for s in (0, 1, top - self.delta) if s >= 0))
+        """Boundary sizes; top + 1 must be refused by send()/sendto()."""
+        return sorted(set(s for s in (0, 1, top - self.delta, top + 1)
+                          if s >= 0))
 
     def name_lens(self):
         M = self.M
@@ -149,13 +151,13 @@ class Spec(object):
         core = self.alpha == 'core'
         M = self.M
         acts = []
-        for s in (self.sizes(M) if not core else [1, M - self.delta]):
+        for s in (self.sizes(M) if not core else [1, M - self.delta, M + 1]):
             acts.append(('sendto', s))
         for i in (0, 1):
             if not w.c[i].state.ESTABLISHED:
                 continue
             for s in (self.sizes(w.m[i]) if not core
-                      else [1, w.m[i] - self.delta]):
+                      else [1, w.m[i] - self.delta, w.m[i] + 1]):
                 acts.append(('send', i, s))
             if not core or i == 0:
                 acts.append(('rx', i))
@@ -493,8 +495,9 @@ def main(tier='quick', seed=0, part=None):
         "pair MAC: both controllers are activated by the real activate() with "
         "the peer's real general bytes; frames go collect->encode->decode->"
         "dispatch without NFC-DEP",
-        "sizes are the boundary sets {0,1,X-delta}, one delta per "
-        "configuration; payload bytes are position coded",
+        "sizes are the boundary sets {0,1,X-delta,X+1}, one delta per "
+        "configuration (X = Link MIU for sendto, connection MIU for send); "
+        "payload bytes are position coded",
         "no data protection (sec=False), no raw access point socket at the "
         "sender (excepted by the statement)",
         "blocking halves of resolve()/close() are not run: the caller is "
